@@ -88,6 +88,10 @@ def run(ctx):
         fails.append(("chunk-table-request-ids-unbounded",
                       "%d one-byte intermediate chunks for %d fresh request ids (MaxChunkCount %d, MaxMessageSize %d): the chunk table holds %d ids / %d chunks pinning %d bytes of receive buffers" % (
                           ids["sent"], ids["sent"], ids["mc"], ids["ms"], ids["ids"], ids["chunks"], ids["cap_sum"]), {"case": ids}))
+    perid = extra.get("perid")
+    if perid and (perid["max_held"] > perid["mc"] or perid["too_many"] < 1):
+        fails.append(("per-request-id-cap", "%d intermediate chunks for one request id with MaxChunkCount %d: up to %d chunks were held, %d 'too many chunks' errors" % (
+            perid["sent"], perid["mc"], perid["max_held"], perid["too_many"]), {"case": perid}))
     if wedge and wedge["first_delivered"] and not wedge["second_delivered"] and wedge["rcv_locked"]:
         fails.append(("rcvlocker-wedge",
                       "an unsolicited OpenSecureChannelResponse whose request id matches a pending request left the dispatcher waiting on rcvLocker: the next response was not delivered until the lock was released by hand", {"case": wedge}))
@@ -111,7 +115,7 @@ def run(ctx):
         "evaluations": sum(len(c["frames"]) for c in cases),
         "distinct_nontrivial": len({f["b"] for c in cases for f in c["frames"] if f["k"] != "uacp"}),
         "rule": "client and server SecureChannels x mode None/Sign/SignAndEncrypt x opening instance nil / without algorithm / with toy algorithm x 0-2 stored instances (toy algorithms, signature lengths 20/32/300) x ReceiveBufSize 12..65535, %d channels per combination, 14 frames each: MSG/OPN/CLO chunks valid for the state, wrong channel ids, OPN under policy None / real policies with a valid, garbage or missing certificate / unknown URIs, hostile length fields, truncations, bit flips, garbage; VerifChannel.ReadChunk on each frame, result (chunk fields / error class / panic) compared with Model.RecvFrame.read_frame threaded through the same frames inside Coq; plus a flood of intermediate chunks for 2000 fresh request ids and the unsolicited-OpenSecureChannelResponse scenario on a running dispatcher; distinct = distinct frame byte strings" % n,
-        "samples": [small, ids, wedge],
+        "samples": [small, ids, perid, wedge],
         "outcome_classes": kinds,
         "channels": len(cases),
         "traces_validated_against_impl": len(cases),
